@@ -203,7 +203,11 @@ def run_build(frame: Frame, terms, efr, na, cd, output="pandas"):
         return "XErr 3", "valueerror:" + str(e)[:60], {"exception": e}
     except Exception as e:
         return "XErr 3", "other:" + type(e).__name__ + ":" + str(e)[:60], {"exception": e}
-    names, pnames, cols, nrows = matrix_columns(mm, output)
+    try:
+        names, pnames, cols, nrows = matrix_columns(mm, output)
+    except (ValueError, TypeError) as e:
+        # a cell of the result is not a number (e.g. raw text copied into the matrix): a C08 violation in its own right
+        return "XErr 9", "nonnumeric:" + str(e)[:80], {"exception": e, "mm": mm}
     exp = "XOk %s %s %s %s" % (clist(cstr(c) for c in (pnames if pnames is not None else names)),
                                clist(clist(qlit(v) for v in col) for col in cols),
                                clist(str(int(i)) + "%nat" for i in sorted(dr)), struct_coq(mm.model_spec))
